@@ -34,7 +34,10 @@ RULE = ("every (Atomic subclass found by walking Atomic.__subclasses__() over al
         "so a case is distinct by (class, argument, mode); modes are application tagging and context tagging with "
         "numbers {0,14,15,254}; three representative arguments per class are crossed with every context number "
         "0..254; an argument the constructor refuses is evaluated once (mode independent); outcomes are labelled by "
-        "kind x tagging x (ok + contents-length class | refused at constructor | refused at encoder)")
+        "kind x tagging x (ok + contents-length class | refused at constructor | refused at encoder)"
+        "  extras: eight values x context numbers outside the octet {255,256,257,270,511,65535,65536,-1,-15,-256} "
+        "(refused, or decodes to that number); enumerations derived from ~12 library enumerations and a fresh one, parent "
+        "used first and derived class used first: every name and number of the derived class and of the parent.")
 ASSUMPTIONS = [
     "value identity is the Python-side .value of the primitive (Enumerated: the number behind the name; two names "
     "of one number are one value); constructor conversions (str->int, int->float, name->bit) are not judged",
@@ -955,6 +958,114 @@ def bit_assignment_shard(item, deadline):
     return acc
 
 
+# ----------------------------------------------------------------------------- context numbers outside an octet, derived enumerations
+
+OUTSIDE_CONTEXTS = (255, 256, 257, 270, 511, 65535, 65536, -1, -15, -256)
+
+
+def extras_shard(item, deadline):
+    """(a) a context number that does not fit the tag-number octet: the encoder refuses, or what it emits decodes to that
+    very number and the same contents - never to another tag.  (b) enumerations derived from an enumeration (a vendor's
+    extension of a standard one), with the parent used before the derived class and the other way round: every name and
+    number of the derived class - its own and the inherited ones - is accepted, encodes to the number and decodes to the
+    name; the parent does not learn the derived names."""
+    import bacpypes.primitivedata as PD
+    import bacpypes.basetypes as BT
+    acc = Acc()
+    # (a)
+    values = (("Unsigned", 0), ("Unsigned", 300), ("Boolean", True), ("Null", ()), ("OctetString", b"\x01\x02\x03\x04\x05"),
+              ("OctetString", bytes(range(256)) + b"xyz"), ("CharacterString", "abc"), ("Enumerated", 7))
+    for kname, arg in values:
+        K = getattr(PD, kname)
+        for ctx in OUTSIDE_CONTEXTS:
+            acc.case(("ctx-range", kname, repr(arg), ctx))
+            case = {"kind": "extras", "sub": "ctx-range", "class": kname, "arg": repr(arg), "ctx": ctx}
+            obj = K(arg)
+            tag = Tag()
+            obj.encode(tag)
+            try:
+                wire = tag.app_to_context(ctx)
+                pd = PDUData()
+                wire.encode(pd)
+                octets = bytes(pd.pduData)
+            except Exception:
+                acc.outcome("ctx-range:refused")
+                continue
+            try:
+                back = Tag(PDUData(octets))
+                seen = (back.tagClass, back.tagNumber, bytes(back.tagData))
+            except Exception as err:
+                seen = "undecodable (%s)" % type(err).__name__
+            want = (Tag.contextTagClass, ctx, bytes(wire.tagData))
+            if seen != want:
+                acc.fail("tag:context-number-outside-an-octet-emitted-as-another-tag",
+                         {"class": kname, "value": repr(arg)[:40], "context": ctx, "emitted": octets[:12].hex(),
+                          "decodes as (class, number, contents)": repr(seen)[:80]}, case)
+            else:
+                acc.outcome("ctx-range:emitted-and-decodes-to-the-same-number")
+    # (b)
+    parents = [k for k in sorted((k for k in vars(BT).values() if isinstance(k, type) and issubclass(k, PD.Enumerated)
+                                  and k.__dict__.get("enumerations")), key=lambda k: k.__name__)]
+    parents = parents[::max(1, len(parents) // 12)]
+
+    class FreshParent(PD.Enumerated):
+        enumerations = {"red": 0, "green": 1, "blue": 2}
+
+    def judge(D, table, tagname, case):
+        for name, number in sorted(table.items(), key=lambda kv: kv[1]):
+            acc.case(("derived-enum", tagname, name))
+            try:
+                o = D(name)
+                t = Tag()
+                o.encode(t)
+                pd = PDUData()
+                t.encode(pd)
+                octets = bytes(pd.pduData)
+                by_number = D(number).value
+                decoded = D(Tag(PDUData(octets))).value
+            except Exception as err:
+                acc.fail("enumerated:derived-class:name-or-number-of-the-class-refused",
+                         {"class": tagname, "name": name, "number": number, "error": repr(err)[:120]}, case)
+                continue
+            ref = R.encode_value(R.ENUM, number)
+            if octets != ref:
+                acc.fail("enumerated:derived-class:octets-differ", {"class": tagname, "name": name, "emitted": octets.hex(),
+                                                                    "reference": ref.hex()}, case)
+            elif by_number != name or decoded != name:
+                acc.fail("enumerated:derived-class:number-not-turned-into-its-name",
+                         {"class": tagname, "name": name, "number": number, "from number": repr(by_number), "decoded": repr(decoded)}, case)
+            else:
+                acc.outcome("derived-enum:ok")
+
+    for order in ("parent-first", "derived-first"):
+        for P in parents + [FreshParent]:
+            ptab = enum_table(P)
+            top = max(ptab.values())
+            own = {"bvVendorOne": top + 1, "bvVendorTwo": top + 1000, "bvVendorBig": 4194303}
+            if order == "derived-first":
+                # a parent class nobody has used yet
+                P = type("Fresh" + P.__name__, (PD.Enumerated,), {"enumerations": dict(ptab)})
+            else:
+                P(sorted(ptab)[0])
+            D = type("Vendor" + P.__name__, (P,), {"enumerations": dict(own)})
+            case = {"kind": "extras", "sub": "derived-enum", "parent": P.__name__, "order": order}
+            full = dict(ptab)
+            full.update(own)
+            judge(D, full, "%s(%s),%s" % (D.__name__, P.__name__, order), case)
+            judge(P, ptab, "%s,after-its-derived-class,%s" % (P.__name__, order), case)
+            for name, number in own.items():
+                acc.case(("derived-enum-parent", P.__name__, order, name))
+                try:
+                    P(name)
+                    learnt = True
+                except ValueError:
+                    learnt = False
+                if learnt or P(number).value != number:
+                    acc.fail("enumerated:parent-learns-the-names-of-a-derived-class",
+                             {"parent": P.__name__, "order": order, "name": name, "number": number}, case)
+    return acc
+
+
 def run(tier, seed, deadline):
     global _WORK, _SEED
     acc = Acc()
@@ -982,6 +1093,7 @@ def run(tier, seed, deadline):
     items.append(("anyatomic", 0, 0))
     run_shards(shard, items, deadline, into=acc, ordered=True)
     run_shards(bit_assignment_shard, [0], deadline, into=acc)
+    run_shards(extras_shard, [0], deadline, into=acc)
     if acc.info.get("harness_error"):
         raise HarnessError("C01 harness crashed in %d shard(s); first: %s" % (len(acc.info["harness_error"]), acc.info["harness_error"][0]))
     acc.info["classes"] = len(per_class)
@@ -1052,6 +1164,10 @@ def replay(case):
         bad = any(ent["count"] for ent in a.fails.values())
         return not bad, "bit strings filled by item assignment (whole sweep re-run): %d failing signatures; e.g. %r" % (
             len(a.fails), (mine or [None])[0])
+    if case.get("kind") == "extras":
+        a = extras_shard(0, time.time() + 120)
+        return not a.fails, "context numbers outside an octet and derived enumerations (whole sweep re-run): failing signatures %r" % (
+            sorted(a.fails),)
     if part == "inbound":
         res = check_inbound(case["charset"], case["text"], case["ctx"])
         return res.sig is None, "inbound charset %r text %r ctx %r -> %s %r" % (
